@@ -18,22 +18,22 @@ import (
 )
 
 type Config struct {
-	Repo          string
-	Module        string
-	Verif         string
-	Z3            string
-	QueryTimeoutS int
-	ModelsPerSite int
-	MaxCallDepth  int
-	Workers       int
-	Verbose       bool
-	NoSummary     bool
-	AllPerms      bool
-	DumpDir       string
-	DumpMs        int
-	Seed          int
+	Repo             string
+	Module           string
+	Verif            string
+	Z3               string
+	QueryTimeoutS    int
+	ModelsPerSite    int
+	MaxCallDepth     int
+	Workers          int
+	Verbose          bool
+	NoSummary        bool
+	AllPerms         bool
+	DumpDir          string
+	DumpMs           int
+	Seed             int
 	PanicsEverywhere bool
-	BudgetS       int
+	BudgetS          int
 }
 
 var gCfg = Config{Repo: "/repo", Module: "github.com/ah-naf/borno", Verif: "/verif", Z3: "z3", QueryTimeoutS: 60, ModelsPerSite: 2, MaxCallDepth: 400, Workers: runtime.NumCPU(), PanicsEverywhere: true}
